@@ -65,3 +65,75 @@ Theorem C13_raised_iff_no_consistent_assignment : forall lbl st params r args vd
    exists e, Forall (full_sat lbl st args e) (params ++ [r])).
 Proof. exact call_succeeds_iff_consistent_assignment. Qed.
 Print Assumptions C13_raised_iff_no_consistent_assignment.
+
+(* "none [of the listed bindings is] taken from the check that failed": the failing isinstance has restored the context
+   before the wrapper formats the message, because of the rollback structure read from the source (gen/Brackets.v) *)
+From JT Require Import gen.Brackets model.SourceShape proofs.SourceShapeFacts model.PyTreeCheck.
+Theorem C13_failed_check_leaves_nothing_behind : forall flat lbl st a v s vd s',
+  instancecheck_src array_check_rolls_back flat lbl st a v s = (vd, s') -> vd <> Acc -> s' = s.
+Proof. exact (fun flat lbl st a v s vd s' => instancecheck_src_restores array_check_rolls_back flat lbl st a v s vd s' eq_refl). Qed.
+Print Assumptions C13_failed_check_leaves_nothing_behind.
+Theorem C13_failed_pytree_check_leaves_nothing_behind : forall st l sopt x s vd s',
+  pytree_check_src st pytree_check_rolls_back l sopt x s = (vd, s') -> vd <> Acc -> ps_stack s' = ps_stack s.
+Proof. exact (fun st l sopt x s vd s' => pytree_check_src_restores pytree_check_rolls_back st l sopt x s vd s' eq_refl). Qed.
+Print Assumptions C13_failed_pytree_check_leaves_nothing_behind.
+
+(* ---------- PyTree-annotated parameters (model/PWrapper.v: the same wrapper over array and PyTree[L, structure] uses) ---------- *)
+From JT Require Import model.PWrapper proofs.PWrapperFacts.
+
+(* a use that does not accept -- an array or a whole tree, wherever in the tree the failure is -- leaves the context as it was *)
+Theorem C13_failed_use_leaves_nothing_behind : forall st u s vd s',
+  run_pstep st u s = (vd, s') -> vd <> Acc -> ps_stack s' = ps_stack s.
+Proof. exact run_pstep_not_acc_restores. Qed.
+Print Assumptions C13_failed_use_leaves_nothing_behind.
+
+(* parameter stage: the blamed parameter k does not accept given the parameters before it, and the bindings listed (axes
+   AND structure names) are exactly the frame established by those parameters *)
+Theorem C13_pytree_param_error_truthful : forall st params ret s0 k fr s',
+  pcall_new st params ret s0 = (PCTypeCheck SParams (Some k) fr, s') ->
+  exists sw vw pre u post s1 vd,
+    pwalk st params s0 = (vw, sw) /\ vw <> Acc /\
+    params = (pre ++ u :: post)%list /\ k = length pre /\
+    pwalk st pre sw = (Acc, s1) /\ fst (run_pstep st u s1) = vd /\ vd <> Acc /\
+    fr = top_frame s1.
+Proof. exact pcall_param_error_truthful. Qed.
+Print Assumptions C13_pytree_param_error_truthful.
+
+Theorem C13_pytree_return_error_truthful : forall st params ret s0 k fr s',
+  pcall_new st params ret s0 = (PCTypeCheck SReturn k fr, s') ->
+  exists s1 r pre u post s2 vd, pwalk st params s0 = (Acc, s1) /\ ret = Some r /\
+    (params ++ [r] = pre ++ u :: post)%list /\ pwalk st pre s1 = (Acc, s2) /\ fst (run_pstep st u s2) = vd /\ vd <> Acc /\
+    fr = top_frame s2.
+Proof. exact pcall_return_error_truthful. Qed.
+Print Assumptions C13_pytree_return_error_truthful.
+
+Theorem C13_pytree_success_iff_both_walks_accept : forall st params ret s0 s',
+  pcall_new st params ret s0 = (PCOk, s') <->
+  exists s1, pwalk st params s0 = (Acc, s1) /\
+             match ret with None => s' = s1 | Some r => pwalk st (params ++ [r]) s1 = (Acc, s') end.
+Proof. exact pcall_ok_iff. Qed.
+Print Assumptions C13_pytree_success_iff_both_walks_accept.
+
+Theorem C13_pytree_annotation_error_passes_through : forall st params ret s0,
+  (exists s1, pwalk st params s0 = (Raise AnnotationErr, s1)) \/
+  (exists s1 r s2, pwalk st params s0 = (Acc, s1) /\ ret = Some r /\ pwalk st (params ++ [r]) s1 = (Raise AnnotationErr, s2)) ->
+  fst (pcall_new st params ret s0) = PCRaise AnnotationErr.
+Proof. exact pcall_annotation_error_passes_through. Qed.
+Print Assumptions C13_pytree_annotation_error_passes_through.
+
+(* f(w: "m", x: PyTree[Float "?k m", "T"], z: "m") with w (5,), x = ((2,5), (3,4)), z (5,): x is blamed (its second leaf
+   breaks m); the listing has m=5 only -- neither the first leaf's `(Leaf 0 in structure T) k=2` nor T itself *)
+Example C13_pytree_nonvacuous :
+  let arr sh := Leaf (PArr (mkvalue true true "float32" sh)) in
+  run_pcall [] [] [PSArr (AC None "m") (mkvalue true true "float32" [5]%Z);
+                   PSTree (Some (LArr (AC None "?k m"))) (Some "T") (Node KTuple [arr [2; 5]%Z; arr [3; 4]%Z]);
+                   PSArr (AC None "m") (mkvalue true true "float32" [5]%Z)] None
+  = "TypeCheckError params blamed=1 S{m=5} V{} T{}".
+Proof. vm_compute. reflexivity. Qed.
+
+(* the wrapper formats the context AS IT IS when the message is built: every shape_str(..) in _decorator.py is given
+   get_shape_memo() (read from the AST, gen/Brackets.v) -- the model's `m = get_memo s'` above; the defect repaired by
+   /repo 095bda1 was a message built from a tuple captured at push time *)
+Theorem C13_messages_read_the_live_context : messages_read_live_memo = true.
+Proof. reflexivity. Qed.
+Print Assumptions C13_messages_read_the_live_context.
